@@ -110,7 +110,7 @@ def trip_plan_all_requests_allow_pooling(
         else:
             return test_errors
 
-    req_ids, _ = frozenset(zip(*trip_plan))
+    req_ids, _ = tuple(zip(*trip_plan))
     req_ids_unique = frozenset(req_ids)
     initial_errors: Tuple[Tuple[str, ...], Tuple[str, ...]] = ((), ())
     sim_error_req_ids, pool_error_req_ids = ft.reduce(_test_req, req_ids_unique, initial_errors)
